@@ -169,6 +169,9 @@ func runC15(r *rt.Run) {
 		}
 	}
 	dists := []float64{0, 1e-3, 1, 10, 1e3, 1e5, 1e6, 5e6, 1e7, 1.5e7, 2e7, piR - 1}
+	// hops below and around a millimetre (the result must still be a location:
+	// started on the antimeridian they have to wrap)
+	dists = append(dists, 1e-9, 1e-6, 1e-4, 3e-4, 5e-4, 6e-4, 7e-4, 2e-3, 0.01, 0.1)
 	if th {
 		dists = append(dists, 0.5, 5, 100, 12345.678, 5e4, 5e5, 3e6, 8e6, piR/2, 1.2e7, 1.8e7, piR-1000, piR-0.001)
 	}
